@@ -132,6 +132,9 @@ impl Hb {
 }
 
 pub struct Core {
+    /// step index of the last event that changed the global state (a task blocked, was woken,
+    /// was spawned or ended, a message or lock was handed over)
+    pub last_progress: usize,
     pub prefix: Vec<Point>,
     pub trace: Vec<Point>,
     pub steps: usize,
@@ -196,6 +199,7 @@ fn op_objects(op: Op) -> Option<Vec<usize>> {
 impl Core {
     fn new(prefix: Vec<Point>, order: Order, params: EnvParams) -> Self {
         Core {
+            last_progress: 0,
             prefix,
             trace: vec![],
             steps: 0,
@@ -457,9 +461,15 @@ fn me() -> usize {
     ExecutionState::me().into()
 }
 
+/// The running task, or None while the engine tears an execution down (stacks of unfinished
+/// tasks are unwound then, and destructors of channel handles, guards, ... still call in here).
+fn try_me() -> Option<usize> {
+    ExecutionState::try_with(|s| s.try_current().map(|t| t.id().into())).ok().flatten()
+}
+
 impl Rt for ShuttleRt {
     fn op(&self, op: Op) {
-        let me = me();
+        let Some(me) = try_me() else { return };
         if trace_on() {
             eprintln!("[t{}] op {:?}", me, op);
         }
@@ -520,6 +530,7 @@ impl Rt for ShuttleRt {
                 self.unblock(k);
             }
         }
+        with_core(|c| c.last_progress = c.steps);
         ExecutionState::with(|s| s.current_mut().block(false));
         sthread::switch();
         with_core(|c| {
@@ -551,6 +562,7 @@ impl Rt for ShuttleRt {
         .unwrap_or(false);
         if woke {
             let _ = try_with_core(|c| {
+                c.last_progress = c.steps;
                 if c.sleep_mode {
                     c.step_woken.push(t);
                 }
@@ -578,6 +590,7 @@ impl Rt for ShuttleRt {
             .unwrap();
         let id: usize = h.thread().id().into();
         with_core(|c| {
+            c.last_progress = c.steps;
             c.ensure_task(id);
             c.names[id] = name;
             c.handles.insert(id, h);
@@ -663,7 +676,7 @@ impl Rt for ShuttleRt {
     }
 
     fn observe(&self, ev: Event) {
-        let me = me();
+        let Some(me) = try_me() else { return };
         let _ = try_with_core(|c| {
             if let Event::StateAccess(obj, write) = ev {
                 if !c.params.race_detector {
@@ -733,8 +746,9 @@ impl Rt for ShuttleRt {
     }
 
     fn hb_release(&self) -> u64 {
-        let me = me();
+        let Some(me) = try_me() else { return 0 };
         try_with_core(|c| {
+            c.last_progress = c.steps;
             let clk = c.hb.clock(me).clone();
             c.hb.tokens.push(clk);
             c.hb.clock(me)[me] += 1;
@@ -744,8 +758,13 @@ impl Rt for ShuttleRt {
     }
 
     fn hb_acquire(&self, token: u64) {
-        let me = me();
+        let Some(me) = try_me() else { return };
+        if token == 0 {
+            return;
+        }
         let _ = try_with_core(|c| {
+            // (not a progress mark: the token of a dropped handle is acquired again by every
+            // receive that reports the disconnection)
             if let Some(t) = c.hb.tokens.get(token as usize - 1).cloned() {
                 vc_join(c.hb.clock(me), &t);
             }
@@ -756,6 +775,7 @@ impl Rt for ShuttleRt {
 fn task_exit() {
     let me = me();
     let (main, waiters) = with_core(|c| {
+        c.last_progress = c.steps;
         c.ensure_task(me);
         c.finished[me] = true;
         let w: Vec<TaskId> = c
@@ -830,6 +850,9 @@ pub enum Status {
     BodyPanic(String),
     Deadlock(String),
     StepCap,
+    /// the step cap was hit and nothing changed the global state during the second half of the
+    /// execution: some task spins (names of the tasks not finished, with their last operation)
+    Livelock(String),
     Divergence(String),
     /// an engine-level failure that is not a verdict
     Engine(String),
@@ -873,13 +896,34 @@ pub type Driver = Box<dyn FnMut(Option<ExecResult>) -> Option<Request>>;
 
 const STACK: usize = 1 << 20;
 
+/// The step cap was hit: a livelock if no event changed the global state (no task blocked, was
+/// woken, spawned or ended, no message or lock changed hands) for more than half of the cap.
+fn step_cap_status(core: &Core) -> Status {
+    if core.steps.saturating_sub(core.last_progress) > core.params.max_steps / 2 {
+        let mut live = vec![];
+        for (i, n) in core.names.iter().enumerate() {
+            if !core.finished[i] && Some(i) != core.clock_task && Some(i) != core.main_task {
+                live.push(format!("{}#{}:{:?}", n, i, core.pending[i]));
+            }
+        }
+        Status::Livelock(format!(
+            "no task blocked, was woken or ended and no message changed hands during the last {} of {} scheduling steps; unfinished tasks: {}",
+            core.steps - core.last_progress,
+            core.steps,
+            live.join(", ")
+        ))
+    } else {
+        Status::StepCap
+    }
+}
+
 fn finish_core(core: Core) -> ExecResult {
     let status = if let Some(d) = core.divergence.clone() {
         Status::Divergence(d)
     } else if let Some(a) = core.abort.clone() {
         a
     } else if core.steps > core.params.max_steps {
-        Status::StepCap
+        step_cap_status(&core)
     } else if let Some(p) = core.body_panic.clone() {
         Status::BodyPanic(p)
     } else {
@@ -1021,7 +1065,7 @@ pub fn run_many(driver: Driver) {
                     match g.as_mut() {
                         Some(core) => {
                             core.abort = Some(if core.steps > core.params.max_steps {
-                                Status::StepCap
+                                step_cap_status(core)
                             } else if t.starts_with("deadlock!") {
                                 let mut blocked = vec![];
                                 for (i, n) in core.names.iter().enumerate() {
